@@ -2,7 +2,8 @@
 (***************************************************************************)
 (* Leg A for C01 and C02: the penalty iterator as a state machine, run on  *)
 (* every replica layout over a small timestamp grid: by a reader iterating *)
-(* from the start and by a reader whose first call is Seek(x), every x.    *)
+(* from the start and by readers that mix Next and Seek(x) in every order  *)
+(* (at most MaxSeeks seeks per reader; seek-first is the special case).    *)
 (*                                                                         *)
 (* Model time is in units of 1000 ms (the harness multiplies by 1000), so  *)
 (* InitPen = 5 stands for the 5000 ms initial penalty; the grid straddles  *)
@@ -11,6 +12,7 @@
 (* Ctr = FALSE (C01): values are unique per replica (100*r + j) so that    *)
 (*   provenance is decidable; layouts whose replicas have identical        *)
 (*   timestamps additionally come with shared values (identical replicas). *)
+(*   With Kinds # {"f"} every sample is a float or a (float) histogram.    *)
 (* Ctr = TRUE  (C02): every replica is a counter: value = start + partial  *)
 (*   sums of increments from Incs; the iterators carry the counter adjust. *)
 (***************************************************************************)
@@ -22,25 +24,32 @@ CONSTANTS Grid,       \* set of model timestamps
           Starts,     \* Ctr: first values
           Incs,       \* Ctr: increments
           Targets,    \* seek targets
+          Kinds,      \* sample kinds of plain inputs ({"f"}: floats only)
+          MaxSeeks,   \* the second reader makes at most this many Seek calls
           EmitMod     \* leg B: emit the cases whose checksum = VERIF_SEED mod EmitMod (1 = all)
 
 VARIABLES reps,    \* the input: sequence of NumReps replicas
           it,      \* iterator state (tree, see Dedup)
-          pc,      \* "run" (reader iterating from the start) | "pick" | "seekstart" | "seeking" | "srun" | "done"
-          out,     \* samples handed to the current reader so far
+          pc,      \* "run" (reader iterating from the start) | "ops" | "seeking" | "done"
+          out,     \* samples handed to the first reader so far
           full,    \* what the reader iterating from the start saw (set when that run ends)
-          target   \* seek target of the second reader
-vars == <<reps, it, pc, out, full, target>>
+          log,     \* calls of the second reader and what they returned
+          target,  \* target of the Seek in progress
+          nseek    \* seeks the second reader has made
+vars == <<reps, it, pc, out, full, log, target, nseek>>
 
 (* ---------------- inputs ---------------- *)
 Lt(a, b) == a < b
 TimeSeqs == { SetToSortSeq(S, Lt) : S \in { S \in SUBSET Grid : Cardinality(S) <= MaxLen } }
 
-PlainRep(ts, r) == [j \in DOMAIN ts |-> <<ts[j], 100 * r + j>>]
-SharedRep(ts) == [j \in DOMAIN ts |-> <<ts[j], 1000 + ts[j]>>]
+(* timestamps with a sample kind each: "f" float, "h" / "fh" histogram (see Dedup) *)
+TimeKindSeqs == UNION { { [j \in DOMAIN ts |-> <<ts[j], ks[j]>>] : ks \in [DOMAIN ts -> Kinds] } : ts \in TimeSeqs }
+Smp(t, v, k) == IF k = "f" THEN <<t, v>> ELSE <<t, v, k>>
+PlainRep(tk, r) == [j \in DOMAIN tk |-> Smp(tk[j][1], 100 * r + j, tk[j][2])]
+SharedRep(tk) == [j \in DOMAIN tk |-> Smp(tk[j][1], 1000 + tk[j][1], tk[j][2])]
 PlainInputs ==
-    { [r \in 1..NumReps |-> PlainRep(f[r], r)] : f \in [1..NumReps -> TimeSeqs] }
-    \cup { [r \in 1..NumReps |-> SharedRep(ts)] : ts \in TimeSeqs }
+    { [r \in 1..NumReps |-> PlainRep(f[r], r)] : f \in [1..NumReps -> TimeKindSeqs] }
+    \cup { [r \in 1..NumReps |-> SharedRep(tk)] : tk \in TimeKindSeqs }
 
 RECURSIVE PartialSum(_, _)
 PartialSum(incs, j) == IF j <= 1 THEN 0 ELSE incs[j - 1] + PartialSum(incs, j - 1)
@@ -51,77 +60,83 @@ CounterInputs == [1..NumReps -> CounterReps]
 
 Inputs == IF Ctr THEN CounterInputs ELSE PlainInputs
 
-(* ---------------- the iterator driven by a reader ---------------- *)
+(* ---------------- the iterator driven by readers ---------------- *)
 (* One behaviour = one input: first a reader that only calls Next (its stream is kept in     *)
-(* `full`), then, on a fresh iterator, a reader whose first call is Seek(target) for a       *)
-(* nondeterministically picked target.                                                       *)
+(* `full`); then, on a fresh iterator, a reader that calls Next or Seek(x), x in Targets, in   *)
+(* any order (at most MaxSeeks seeks) until a call finds no sample.                          *)
+(* (\E r \in {e} : ...) binds the value of e once: TLC re-evaluates action-level LET          *)
+(* definitions and operator arguments at every use.                                          *)
 Init == /\ reps \in Inputs
         /\ it = Build(reps, Ctr)
         /\ pc = "run"
-        /\ out = <<>>
-        /\ full = <<>>
-        /\ target = 0
+        /\ out = <<>> /\ full = <<>> /\ log = <<>> /\ target = 0 /\ nseek = 0
 
-(* the reader receives the result r of a Next/Seek call *)
-Emit(r) ==
-    /\ it' = r.it
-    /\ IF r.ok
-         THEN /\ out' = Append(out, ItAt(r.it))
-              /\ pc' = IF pc = "run" THEN "run" ELSE "srun"
-              /\ full' = full
-         ELSE /\ out' = out
-              /\ pc' = IF pc = "run" THEN "pick" ELSE "done"
-              /\ full' = IF pc = "run" THEN out ELSE full
+(* first reader: Next until exhausted; then the second reader gets a fresh iterator *)
+ReaderNext ==
+    /\ pc = "run"
+    /\ \E r \in {ItNext(it)} :
+         IF r.ok THEN /\ it' = r.it /\ out' = Append(out, ItAt(r.it))
+                      /\ UNCHANGED <<pc, full>>
+                 ELSE /\ it' = Build(reps, Ctr) /\ full' = out /\ pc' = "ops"
+                      /\ UNCHANGED out
+    /\ UNCHANGED <<reps, log, target, nseek>>
 
-(* reader calls Next *)
-(* (\E r \in {e} : ...) binds the value of e once; TLC re-evaluates action-level LET       *)
-(* definitions and operator arguments at every use.)                                        *)
-ReaderNext == /\ pc \in {"run", "srun"}
-              /\ \E r \in {ItNext(it)} : Emit(r)
-              /\ UNCHANGED <<reps, target>>
+Entry(op, x, r) == [op |-> op, x |-> x, ok |-> r.ok, s |-> IF r.ok THEN ItAt(r.it) ELSE <<>>]
+Logged(op, x, r) == /\ it' = r.it
+                    /\ log' = Append(log, Entry(op, x, r))
+                    /\ pc' = IF r.ok THEN "ops" ELSE "done"
 
-(* a second reader starts on a fresh iterator of the same series *)
-Pick(x) == /\ pc = "pick"
-           /\ target' = x /\ it' = Build(reps, Ctr) /\ out' = <<>> /\ pc' = "seekstart"
-           /\ UNCHANGED <<reps, full>>
+(* second reader calls Next *)
+OpNext == /\ pc = "ops"
+          /\ \E r \in {ItNext(it)} : Logged("next", 0, r)
+          /\ UNCHANGED <<reps, out, full, target, nseek>>
 
-(* its first call is Seek(target).  For the penalty iterator the loop of Seek is unrolled    *)
-(* into one step per iteration (SeekEnter, SeekLoop); a single replica is a plain series     *)
-(* iterator whose Seek is one step.                                                          *)
-SeekEnter == /\ pc = "seekstart"
-             /\ IF it.k = "leaf"
-                  THEN \E r \in {ItSeek(it, target)} : Emit(r)
-                  ELSE /\ UNCHANGED <<out, full>>
-                       /\ IF ~it.has
-                            THEN \E r \in {DDNext(it)} :   \* nothing read yet: consult both replicas
-                                 it' = r.it /\ pc' = IF r.ok THEN "seeking" ELSE "done"
-                            ELSE it' = it /\ pc' = "seeking"
-             /\ UNCHANGED <<reps, target>>
+(* second reader calls Seek(x).  For the penalty iterator the loop of Seek is unrolled into   *)
+(* one step per iteration (OpSeek, SeekLoop); a single replica is a plain series iterator     *)
+(* whose Seek is one step.                                                                   *)
+OpSeek(x) ==
+    /\ pc = "ops" /\ nseek < MaxSeeks
+    /\ nseek' = nseek + 1 /\ target' = x
+    /\ IF it.k = "leaf"
+         THEN \E r \in {ItSeek(it, x)} : Logged("seek", x, r)
+         ELSE IF ~it.has
+                THEN \E r \in {DDNext(it)} :      \* nothing read yet: consult both replicas
+                     IF r.ok THEN it' = r.it /\ pc' = "seeking" /\ log' = log
+                             ELSE Logged("seek", x, r)
+                ELSE it' = it /\ pc' = "seeking" /\ log' = log
+    /\ UNCHANGED <<reps, out, full>>
 
-SeekLoop == /\ pc = "seeking"
-            /\ IF ItAtT(it) >= target
-                 THEN it' = it /\ out' = Append(out, ItAt(it)) /\ pc' = "srun"
-                 ELSE \E r \in {DDNext(it)} :
-                      /\ it' = r.it /\ out' = out
-                      /\ pc' = IF r.ok THEN "seeking" ELSE "done"
-            /\ UNCHANGED <<reps, target, full>>
+SeekLoop ==
+    /\ pc = "seeking"
+    /\ IF ItAtT(it) >= target
+         THEN Logged("seek", target, [it |-> it, ok |-> TRUE])
+         ELSE \E r \in {DDNext(it)} :
+              IF r.ok THEN it' = r.it /\ UNCHANGED <<pc, log>>
+                      ELSE Logged("seek", target, r)
+    /\ UNCHANGED <<reps, out, full, target, nseek>>
 
-Next == ReaderNext \/ (\E x \in Targets : Pick(x)) \/ SeekEnter \/ SeekLoop
+Next == ReaderNext \/ OpNext \/ (\E x \in Targets : OpSeek(x)) \/ SeekLoop
 Spec == Init /\ [][Next]_vars
 
 (* ---------------- C01 ---------------- *)
 C01_StrictlyIncreasing == StrictlyIncreasing(out)
-C01_FromSomeReplica == ~Ctr => FromSomeReplica(out, reps)
-C01_UnchangedIfIdentical == (pc = "pick" /\ ~Ctr) => UnchangedIfIdentical(full, reps)
-C01_SeekIsSuffix == pc = "done" => SeekIsSuffix(full, target, out)
+C01_FromSomeReplica == ~Ctr => FromSomeReplica(out, reps) /\ FromSomeReplica(Received(log), reps)
+C01_UnchangedIfIdentical == (pc # "run" /\ ~Ctr) => UnchangedIfIdentical(full, reps)
+(* a reader whose first call is Seek(x) and who then only calls Next sees the suffix from x *)
+SeekFirstThenNext == /\ Len(log) >= 1 /\ log[1].op = "seek"
+                     /\ \A k \in 2..Len(log) : log[k].op = "next"
+C01_SeekIsSuffix == (pc = "done" /\ SeekFirstThenNext) => SeekIsSuffix(full, log[1].x, Received(log))
+(* any reader moves a cursor over the stream read from the start *)
+C01_FollowsFullStream == pc \in {"ops", "done"} => FollowsFullStream(full, log)
 (* the step-wise machine and the functional form used by the trace specs agree *)
 StepwiseEqualsFunctional ==
-    /\ pc = "pick" => full = RunNext(reps, Ctr)
-    /\ pc = "done" => out = RunSeek(reps, Ctr, target)
+    /\ (pc = "ops" /\ log = <<>>) => full = RunNext(reps, Ctr)
+    /\ pc = "done" => log = RunOps(reps, Ctr, [k \in DOMAIN log |-> [op |-> log[k].op, x |-> log[k].x]])
 (* ---------------- C02 ---------------- *)
-C02_CounterNeverDecreases == Ctr => CounterNeverDecreases(out, reps)
+C02_CounterNeverDecreases == Ctr => CounterNeverDecreases(out, reps) /\ CounterNeverDecreases(Received(log), reps)
 (* termination: a reader gets at most one sample per input sample, and only "done" has no successor *)
-BoundedOutput == Len(out) <= Cardinality(SampleSet(reps))
+BoundedOutput == /\ Len(out) <= Cardinality(SampleSet(reps))
+                 /\ Len(log) <= Cardinality(SampleSet(reps)) + MaxSeeks + 1
 OnlyDoneIsFinal == pc # "done" => ENABLED Next
 
 (* ---------------- leg B: the inputs handed to the harness ---------------- *)
